@@ -17,7 +17,7 @@ add("C19", "TestC19",
           "IANA zones, a date layout x time layout (0-9 fraction digits, AM/PM variants) rendered by an own fmt.Sprintf "
           "formatter, one of the four functions (or a round trip, the empty input, an unparsable mutation). Non-trivial: the "
           "instant lies outside 1970-2038 or within 48h of a DST transition of a non-UTC zone used by the case; distinct by "
-          "SHA-256 of the serialised case."),
+          "SHA-256 of the serialised case. Unit SECOND is also asked for instants inside a second (floor). Unparsable epoch texts (beyond int64, NaN, Inf, 12a, hex float) must be errors."),
     quick={"checks": 60000, "shards": 1, "timeout": 300},
     thorough={"checks": 500000, "shards": 16, "timeout": 1500},
     floors={"outside-1678-2262": 0.20, "nontrivial": 0.3, "func=0": 0.15, "func=2": 0.08, "func=4": 0.08, "srcform=5": 0.1},
@@ -96,7 +96,7 @@ add("C10", "TestC10",
           "three ways (type cast, two xpath matches [xml], custom function error [javascript throw]). Oracle: out(r1..rn) = "
           "out(r1)++...++out(rn) (single-record runs), out(A++B) = out(A)++out(B), out(perm R) = perm out(R), replacement changes exactly "
           "that position into a per-record failure; compared on (kind, JSON, checksum). Non-trivial: a split between differently sized "
-          "records, a permutation that moves a record, or a failing replacement not in last position; distinct by SHA-256 of the case."),
+          "records, a permutation that moves a record, or a failing replacement not in last position; distinct by SHA-256 of the case. A third of the cases contain a near-duplicate pair: a copy of a record, right after it, that differs in one value only (for XML shapes possibly an attribute of a text-only element)."),
     quick={"checks": 1500, "shards": 4, "timeout": 600},
     thorough={"checks": 10000, "shards": 16, "timeout": 3000},
     floors={"permuted": 0.4, "bad-not-last": 0.15, "bad-kind=1": 0.1, "bad-kind=2": 0.01, "bad-kind=3": 0.02, "xform=2": 0.15},
@@ -108,7 +108,7 @@ add("C15", "TestC15",
           "sub-record value) of one record is modified. Oracle: byte-identical Read output, error text and checksums for first run / "
           "run after the other transforms / fresh process; equal raw records <=> equal checksums on the observed set; the modified "
           "record's checksum changes and no other record's does. Non-trivial: >= 2 records, output object with >= 3 keys and >= 1 other "
-          "transform before the measured one; distinct by SHA-256 of the case. About 12 % of the cases take one of the repository's own sample schemas with (the first 4 KiB of) its sample input as subject instead of a generated shape (class repo-sample). History steps also include: the process builds an Extension the documented way (customfuncs.Merge of the common, the omni.2.1 and own functions that shadow builtins) and runs a transform through it; one transformctx.Ctx value handed to the other transforms and to the second measured run (each under its own input name)."),
+          "transform before the measured one; distinct by SHA-256 of the case. About 12 % of the cases take one of the repository's own sample schemas with (the first 4 KiB of) its sample input as subject instead of a generated shape (class repo-sample). History steps also include: the process builds an Extension the documented way (customfuncs.Merge of the common, the omni.2.1 and own functions that shadow builtins) and runs a transform through it; one transformctx.Ctx value handed to the other transforms and to the second measured run (each under its own input name). XML shapes may write the last column as an attribute of the text-only element c0 (read with c0/@a); the leaf mutation then often changes that attribute (open finding C15-F1: the checksum does not see it). Typed externals (int, boolean; one as a javascript argument) are part of the externals flavour."),
     quick={"checks": 250, "shards": 4, "timeout": 600},
     thorough={"checks": 3000, "shards": 16, "timeout": 3000},
     floors={"own-extension-in-history": 0.1, "ctx-value-reused": 0.15, "repo-sample": 0.04, "warmed": 0.5, "fresh-process": 0.2, "leaf-mutation": 0.2},
@@ -127,7 +127,7 @@ add("C17", "TestC17",
           "bytes per record suffice at k=1000 -, a cache filling up shows in one; the unchanged code stays under 16 KiB per case, see "
           "counters.heap_arm_growth_bytes / heap_arm_growth_over_16KiB). "
           "Non-trivial: >= 50 delivered records with filtered-out candidates between deliveries (tree arms), >= 1000 delivered records "
-          "(heap arm); distinct by SHA-256 of the case."),
+          "(heap arm); distinct by SHA-256 of the case. XML shapes take a positional predicate ([position() <= 1000000], true for every candidate) instead of the value filter in a quarter of the cases; JSON shapes of the heap arm write their records as properties of one object under distinct names half of the time."),
     quick={"checks": 150, "shards": 4, "timeout": 900},
     thorough={"checks": 1500, "shards": 16, "timeout": 3300},
     floors={"filtered-candidates": 0.25, "sep=1": 0.3, "k>=2000": 0.03, "arm=live-heap": 0.08},
@@ -139,9 +139,9 @@ add("C18", "TestC18",
     rule=("Cases: gen.Shape input (7 formats) whose field values carry code points 0x80..0xFF (biased to 0x80-0x9F and the five bytes "
           "unassigned in windows-1252), written as one byte per code point; encoding iso-8859-1 / windows-1252 / utf-8 (with optional "
           "BOM); delivered in one chunk or byte by byte. Oracle: transcript(bytes, encoding X) = transcript(code page table applied to "
-          "the bytes, utf-8) with the tables hard-coded in the harness (unassigned cp1252 bytes: U+FFFD or the C1 control accepted); "
+          "the bytes, utf-8) with the tables hard-coded in the harness (unassigned cp1252 bytes: U+FFFD); "
           "utf-8: omitted encoding = utf-8, leading BOM changes nothing and never appears in output. Non-trivial: the input has a byte "
-          ">= 0x80 (or a BOM) and >= 1 record is delivered; distinct by SHA-256 of the case. A third of the XML inputs start with an XML declaration carrying its own encoding label (ISO-8859-1, windows-1252, latin1, UTF-8, utf8, us-ascii), applied by the xml decoder on both sides of the relation."),
+          ">= 0x80 (or a BOM) and >= 1 record is delivered; distinct by SHA-256 of the case. A third of the XML inputs start with an XML declaration carrying its own encoding label (ISO-8859-1, windows-1252, latin1, UTF-8, utf8, us-ascii), applied by the xml decoder on both sides of the relation. A sixth of the single-byte cases inject only character groups whose bytes form well-formed UTF-8 (C3 A9, E2 82 AC ...). The five unassigned windows-1252 bytes must convert to U+FFFD."),
     quick={"checks": 1500, "shards": 4, "timeout": 600},
     thorough={"checks": 12000, "shards": 16, "timeout": 3000},
     floors={"enc=iso-8859-1": 0.25, "enc=windows-1252": 0.25, "enc=utf-8": 0.2, "bytes-80-9F": 0.4, "bom": 0.08},
@@ -177,7 +177,7 @@ META["C18"] = {
     "design_ref": "DESIGN.md §5 C18",
     "level_text": ("Generated single-byte inputs over all byte values for every format; declared-encoding runs must equal runs on the "
                    "input pre-converted with the harness' own ISO-8859-1 / CP1252 tables; BOM transparency for utf-8. Exploration."),
-    "level_note": "Trusted: the hard-coded CP1252 table (from CP1252.TXT). For the five unassigned bytes both U+FFFD and the C1 control are accepted.",
+    "level_note": "Trusted: the hard-coded CP1252 table (from CP1252.TXT). The five unassigned bytes convert to U+FFFD (the Go text packages' table).",
 }
 
 add("C01", "TestC01",
@@ -237,7 +237,7 @@ add("C14", "TestC14", race=True,
           "always shared by >= 2 goroutines), 1-3 repeats, GOMAXPROCS in {1,2,16}, generated runtime.Gosched jitter at Read granularity; "
           "test binary built with -race (GORACE=halt_on_error=1: a report ends the run and the round in progress is the replay). "
           "Oracle: every goroutine's transcript (bytes, errors, checksums) equals the serial transcript of the same (schema, input); no "
-          "race report. Non-trivial: >= 2 different schemas run at once with one Schema shared by >= 2 goroutines; distinct by SHA-256. About 12 % of the cases take one of the repository's own sample schemas with (the first 4 KiB of) its sample input as subject instead of a generated shape (class repo-sample)."),
+          "race report. Non-trivial: >= 2 different schemas run at once with one Schema shared by >= 2 goroutines; distinct by SHA-256. About 12 % of the cases take one of the repository's own sample schemas with (the first 4 KiB of) its sample input as subject instead of a generated shape (class repo-sample). A sixth of the generated entries use the externals flavour; even and odd goroutines then pass different external properties, and every serial reference comes from a Schema object of its own."),
     quick={"checks": 100, "shards": 4, "timeout": 900, "gomaxprocs": 16},
     thorough={"checks": 1500, "shards": 16, "timeout": 3300, "gomaxprocs": 16},
     floors={"repo-sample": 0.04, "javascript": 0.3, "goroutines=16": 0.1, "maxprocs=1": 0.15},
@@ -262,7 +262,7 @@ add("C03", "TestC03", note_current=True,
           "copies, binary noise, a 70 KB line, empty. Monitors: recover() around NewSchema, NewTransform, every Read, RawRecord and "
           "Checksum; per-case watchdog (20 s wall AND >= 10 s process CPU => hang; otherwise inconclusive); a finite input of n bytes "
           "must reach a terminal result within 2n+64 Reads. Non-trivial: NewSchema accepted a mutated schema, or the input is not the "
-          "matching one and at least one Read ran; distinct by SHA-256 of the case."),
+          "matching one and at least one Read ran; distinct by SHA-256 of the case. Mutation op 12 edits one record/envelope/segment declaration (second is_target, deleted name, max 0, min 0 max 0, max 1)."),
     quick={"checks": 5000, "shards": 8, "timeout": 900},
     thorough={"checks": 60000, "shards": 16, "timeout": 3300, "fuzz": [{"target": "FuzzC03", "time": 240}]},
     floors={"accepted-mutant": 0.12, "malformed-input": 0.25, "base=sample": 0.3, "base=shape": 0.3},
@@ -458,7 +458,7 @@ add("C02", "TestC02",
           "idr.MatchAll without cache. Where the documentation is silent (kept empty container as null / {} / []; failing xpath_dynamic; "
           "failing argument under ignore_error) all documented-compatible outcomes are accepted and counted. Non-trivial: identical "
           "declaration text with an anchor at >= 2 positions, or a template used at >= 2 places, or an array of >= 10 children, or >= 3 "
-          "nested anchors; distinct by SHA-256 of the case."),
+          "nested anchors; distinct by SHA-256 of the case. Custom functions include two caller-registered ones (Extension built with customfuncs.Merge): c02mix(string, int64, bool, float64) and the variadic c02var(string, ...interface{}), with absent, well-typed constant and cast arguments."),
     quick={"checks": 2000, "shards": 4, "timeout": 900},
     thorough={"checks": 15000, "shards": 16, "timeout": 3300},
     floors={"identical-text": 0.05, "template-multi-use": 0.05, "array>=10": 0.05, "deep-anchors": 0.05,
@@ -492,7 +492,7 @@ add("C08", "TestC08",
           "CDATA, references, comments, PIs, prolog; the reader's tree must be isomorphic to a token-level DOM built from a second "
           "xml.Decoder (element order, local name, prefix, URI, attributes in order as leading children, merged character data). "
           "Non-trivial: JSON - a 0-or-1-member container, an empty key or a non-integer number; XML - >= 2 namespace bindings, mixed "
-          "content or CDATA/references; distinct by SHA-256 of the case."),
+          "content or CDATA/references; distinct by SHA-256 of the case. One JSON case in 60 is a chain of 300-1100 nested arrays/objects."),
     quick={"checks": 2500, "shards": 4, "timeout": 900},
     thorough={"checks": 50000, "shards": 16, "timeout": 3300},
     floors={},
